@@ -262,7 +262,10 @@ def runOp (s : Sexp) : String :=
       let fl : Plenctag.Flags := { json := j == "1", sql := sq == "1", priv := pr == "1" }
       -- the harness names an embedded field by its type expression; the tool uses the type's name
       let sts := sts.map fun fs => fs.map fun f =>
-        { f with embeddedName := (f.embeddedName.dropWhile (· == '*')).toString }
+        { f with embeddedName :=
+            -- `*T` → T, `pkg.T` → T (main.go embeddedName: StarExpr, SelectorExpr)
+            let n := (f.embeddedName.dropWhile (· == '*')).toString
+            (n.splitOn ".").getLast?.getD n }
       (match Plenctag.rewriteFileX fl sts with
        | .ok out => "ok " ++ String.intercalate " " (out.map fun fs =>
            "(st" ++ String.join (fs.map fun f => " " ++ showTTField f) ++ ")")
@@ -331,6 +334,21 @@ def runOp (s : Sexp) : String :=
          else s!"ok {showJV r} ENC-MISMATCH {showJRT v}"
        | .err => "err" | .panic => "panic" | .hang => "hang")
     | _, _ => "bad-op"
+  -- (jrt merge V PRIOR xDATA): the implementation's bytes decoded into a target that already holds PRIOR
+  | .list [.atom "jrt", .atom "merge", v, prior, .atom dataH] =>
+    match parseJV v, parseJV prior, parseHex dataH with
+    | some v, some p, some data =>
+      (match v, p with
+       | .obj _, .obj pm =>
+         (match JSONAny.mapRead (data.length + 1) data .slice pm with
+          | .ok (m, _) => "ok " ++ showJV (.obj m)
+          | .err => "err" | .panic => "panic" | .hang => "hang")
+       | .arr _, .arr pa =>
+         (match JSONAny.arrRead (data.length + 1) data .slice pa with
+          | .ok (a, _) => "ok " ++ showJV (.arr a)
+          | .err => "err" | .panic => "panic" | .hang => "hang")
+       | _, _ => "bad-op")
+    | _, _, _ => "bad-op"
   | .list [.atom "jrt", .atom "field", v, v2] =>
     match parseJV v, parseJV v2 with
     | some v, some v2 => s!"ok -7 {showJRT v} {showJRT v2} x7a"
@@ -436,6 +454,8 @@ def runOp (s : Sexp) : String :=
   | .list [.atom "internmany", .atom _] => "unsupported"
   -- pointer-keyed maps: keys are identities, outside the value model
   | .list [.atom "ptrkeys", .atom _] => "unsupported"
+  -- registration after a failed first use: outside the registration-before-use fragment of World
+  | .list [.atom "latereg", .atom _] => "unsupported"
   -- `type P *P`: no finite TyDef
   | .list [.atom "buildself", .atom _] => "unsupported"
   | .list [.atom "zag", .atom n] =>
